@@ -1053,6 +1053,24 @@ class SymExec(object):
             return mk_fstr(parts)
         if isinstance(n, ast.Lambda):
             return ('lambda', src(n))
+        if isinstance(n, ast.ListComp) and len(n.generators) == 1 and not n.generators[0].ifs and any(isinstance(x_, ast.Call) for x_ in ast.walk(n.elt)) \
+                and isinstance(n.generators[0].iter, ast.Call) and isinstance(n.generators[0].iter.func, ast.Name) and n.generators[0].iter.func.id == 'range':
+            # [f() for _ in range(k)] with a small constant k: k evaluations of the element, in order -- the display it
+            # spells out (each call is an event of its own, e.g. k reads of a cursor)
+            probe_ = st.copy()
+            items_ = self.iter_items(self.ev(n.generators[0].iter, probe_), probe_, limit=8)
+            if items_ is not None and all(i_[0] == 'const' for i_ in items_):
+                out_ = []
+                saved_ = dict(st.env)
+                for i_ in items_:
+                    self.bind(n.generators[0].target, i_, st, n)
+                    out_.append(self.ev(n.elt, st))
+                for k_ in [k_ for k_ in st.env if k_ not in saved_]:
+                    del st.env[k_]
+                for k_, v_ in saved_.items():
+                    if isinstance(k_, str) and '.' not in k_:
+                        st.env[k_] = v_
+                return ('list', tuple(out_))
         if isinstance(n, (ast.ListComp, ast.SetComp, ast.GeneratorExp)) and len(n.generators) >= 1:
             sub = st.copy()
             gens = []
